@@ -477,7 +477,7 @@ class Key(metaclass=InlineDocstring):
         else:
             raise ValueError(f'Invalid or unsupported curve type: `{self.curve!r}`.')
 
-        if generic:
+        if generic and self.curve != b'BL':  # there is no generic form for 96-byte BLS signatures
             prefix = b'sig'
         else:
             prefix = self.curve + b'sig'
